@@ -9,6 +9,27 @@ pub mod rvref;
 pub mod src;
 pub mod stubs;
 
+/// (The message literal must start with "W:" for `witness!`, "I:" for `seen!`:
+/// kani::cover! only accepts a literal.)
+/// Reachability witness at a specific site (one distinct cover property per
+/// call site); the driver requires every witness of a harness to be SATISFIED.
+#[macro_export]
+macro_rules! witness {
+    ($cond:expr, $msg:literal) => {
+        #[cfg(kani)]
+        kani::cover!($cond, $msg);
+    };
+}
+
+/// Informational cover: reported in the evidence, not required.
+#[macro_export]
+macro_rules! seen {
+    ($cond:expr, $msg:literal) => {
+        #[cfg(kani)]
+        kani::cover!($cond, $msg);
+    };
+}
+
 #[macro_export]
 macro_rules! obligations {
     ( $( $(#[$attr:meta])* fn $name:ident ( $s:ident ) $body:block )* ) => {
@@ -31,9 +52,20 @@ macro_rules! obligations {
     };
 }
 
+pub mod mk;
 pub mod ob_fold;
+pub mod ob_gen;
+pub mod ob_rules;
+pub mod gen_rules;
+pub mod ob_imm;
+pub mod ob_lexpos;
+pub mod ob_misc;
+pub mod ob_props;
+pub mod ob_regs;
+pub mod ob_text;
+pub mod gen_text;
 
 /// All replayable obligations, by harness name.
 pub fn replay_tables() -> Vec<&'static [(&'static str, fn(&mut src::ReplaySrc))]> {
-    vec![ob_fold::TABLE]
+    vec![ob_fold::TABLE, ob_imm::TABLE, ob_lexpos::TABLE, ob_props::TABLE, ob_regs::TABLE, gen_text::TABLE, ob_gen::TABLE, gen_rules::TABLE, ob_misc::TABLE]
 }
